@@ -67,6 +67,13 @@ def add_noise(e: ESpec):
                 ni[v.ident] = ['default']
             elif r & 16 and not v.tr and v.ident not in ni and not (consumes & {'Display', 'AsRefStr', 'IntoStaticStr', 'AsStaticStr', 'ToString'}):
                 ni[v.ident] = ['transparent']
+        # `default_with` (variant level for one-field tuples, field level for named fields) is EnumString's alone
+        if 'EnumString' not in consumes and r & 4:
+            simple = ('u8', 'i32', 'bool', 'String', 'u16', 'i64')
+            if v.kind == 'tuple' and len(v.ftypes) == 1 and v.ftypes[0] in simple and v.dw is None:
+                v.dw = 'mk_%s_%s' % (v.ftypes[0].lower(), v.ident.lower())
+            elif v.kind == 'named' and v.ftypes and v.ftypes[0] in simple and v.fdw and v.fdw[0] is None:
+                v.fdw[0] = 'mk_%s_%s_0' % (v.ftypes[0].lower(), v.ident.lower())
         # non-string doc attributes must not disturb attribute collection
         if r & 8:
             e.extra.setdefault('variant_attrs', {}).setdefault(v.ident, []).append(['#[doc(hidden)]', '#[doc(alias = "noise")]'][k % 2])
